@@ -818,6 +818,85 @@ fn linearizable_from(subs: &[Sub], start: &TState) -> Option<TState> {
     go(subs, 0, start, &mut HashSet::new())
 }
 
+/// Deadlock hunt: the same generated operation lists, repeated many times by free-running
+/// threads with no recording at all (so the threads spend their time inside the storage code);
+/// only the watchdog judges.
+pub fn prop_hunt(case: &Burst) -> CaseResult {
+    let mut out = Outcome::default();
+    let mut config = Config::default();
+    config.protocol.max_response_peers = 30;
+    let maps = TorrentMaps::default();
+    let statistics: aquatic_udp::common::CachePaddedArc<aquatic_udp::common::IpVersionStatistics<aquatic_udp::common::SwarmWorkerStatistics>> = Default::default();
+    let access_list = Arc::new(AccessListArcSwap::default());
+    let (tx, _rx) = crossbeam_channel::unbounded();
+    let finished = Arc::new(AtomicU64::new(0));
+    let go = Arc::new(std::sync::Barrier::new(case.threads.len()));
+    let mut tids: Vec<Arc<AtomicU64>> = Vec::new();
+    let reps = 150 * case.bursts.max(1) as usize;
+    for (i, ops) in case.threads.iter().enumerate() {
+        let (maps, config, statistics, access_list, tx, go, finished) = (maps.clone(), config.clone(), statistics.clone(), access_list.clone(), tx.clone(), go.clone(), finished.clone());
+        let ops = ops.clone();
+        let tid = Arc::new(AtomicU64::new(0));
+        tids.push(tid.clone());
+        std::thread::spawn(move || {
+            tid.store(unsafe { libc::syscall(libc::SYS_gettid) } as u64, Ordering::SeqCst);
+            let mut rng = SmallRng::seed_from_u64(i as u64);
+            go.wait();
+            for _ in 0..reps {
+                for op in ops.iter() {
+                    let _ = exec(&maps, &config, true, op, &mut rng, &statistics, &access_list, &tx);
+                }
+            }
+            finished.fetch_add(1, Ordering::SeqCst);
+        });
+    }
+    let start = Instant::now();
+    let mut last_cpu: Option<u64> = None;
+    let mut stalled_since: Option<Instant> = None;
+    while finished.load(Ordering::SeqCst) < case.threads.len() as u64 {
+        std::thread::sleep(Duration::from_millis(if start.elapsed() < Duration::from_millis(500) { 1 } else { 250 }));
+        if start.elapsed() > Duration::from_secs(1) {
+            let mut cpu = 0u64;
+            let mut all_sleeping = true;
+            for t in &tids {
+                let tid = t.load(Ordering::SeqCst);
+                if let Ok(stat) = std::fs::read_to_string(format!("/proc/self/task/{tid}/stat")) {
+                    let after = stat.rsplit(") ").next().unwrap_or("");
+                    let f: Vec<&str> = after.split_whitespace().collect();
+                    if f.first().map(|s| *s != "S").unwrap_or(false) {
+                        all_sleeping = false;
+                    }
+                    cpu += f.get(11).and_then(|s| s.parse::<u64>().ok()).unwrap_or(0) + f.get(12).and_then(|s| s.parse::<u64>().ok()).unwrap_or(0);
+                }
+            }
+            if all_sleeping && last_cpu == Some(cpu) {
+                if stalled_since.is_none() {
+                    stalled_since = Some(Instant::now());
+                }
+                if stalled_since.unwrap().elapsed() > Duration::from_secs(10) {
+                    vfail!(
+                        "deadlock",
+                        "{} of {} free-running threads are blocked and none has used CPU for 10 s; threads' operation lists: {:?}",
+                        case.threads.len() as u64 - finished.load(Ordering::SeqCst),
+                        case.threads.len(),
+                        case.threads
+                    );
+                }
+            } else {
+                stalled_since = None;
+            }
+            last_cpu = Some(cpu);
+        }
+        if start.elapsed() > Duration::from_secs(120) {
+            return Err(Violation::new("inconclusive-hunt-timeout", "threads still running after 120 s but not all blocked"));
+        }
+    }
+    out.checks += 1;
+    out.nontrivial = true;
+    out.label("hunt-completed");
+    Ok(out)
+}
+
 fn burst() -> impl Strategy<Value = Burst> {
     (proptest::collection::vec(proptest::collection::vec(pop(4), 3..7), 4..5), 1u16..4).prop_map(|(threads, bursts)| Burst { threads, bursts })
 }
@@ -843,12 +922,16 @@ pub fn run(ctx: &mut Ctx) {
     ctx.require_label("programs", "all-schedules-enumerated", 0.3);
     ctx.run_prop("stress", tier.pick(3000, 100_000), burst, prop_stress);
     ctx.require_label("stress", "overlapping-ops-on-one-torrent", 0.3);
+    ctx.run_regress::<Burst, _>("deadlock-hunt", prop_hunt);
+    let hunt_threads = (ctx.threads / 4).max(1);
+    ctx.run_prop_threads("deadlock-hunt", tier.pick(200, 6000), hunt_threads, burst, prop_hunt);
 }
 
 pub fn replay(path: &str, sub: &str, case: serde_json::Value) -> i32 {
     match sub {
         "schedules" => replay_one::<SchedCase, _>("C04", path, case, prop_sched),
         "stress" => replay_one::<Burst, _>("C04", path, case, prop_stress),
+        "deadlock-hunt" => replay_one::<Burst, _>("C04", path, case, prop_hunt),
         _ => replay_one::<ProgramCase, _>("C04", path, case, prop_program),
     }
 }
